@@ -312,14 +312,23 @@ def rule_i(ctx, cr):
               if (f.stored_variant(f.value_of_operand(c.args[1])) or ("", ""))[1] == "Unknown"]
     ok = True
     if trims:
-        ok = bool(pushes) and all(
+        guarded = bool(pushes) and all(
             any(cc[0] == "eq" and "is_empty" in str(cc[1]) and cc[2] is False for cc in f.conds_at(c.bb))
             for c in pushes)
+        # or: a loop removes every trailing token that trims to nothing before the push
+        sccs = [set(x) for x in f.sccs()]
+        looped = any(any(c.bb in sc for c in f.calls_matching(r"Vec::<T, A>::pop$")) and
+                     any(c.bb in sc for c in trims) and
+                     any(c.bb in sc for c in f.calls_matching(r"<impl str>::is_empty$"))
+                     for sc in sccs)
+        # one removal is not enough (`5 <CR> <CR>`): the removal has to repeat
+        ok = looped
     ctx.check(ok, "C05.i", "trim_end/no-empty-token", f.span,
               "a trailing token that trimming empties is dropped, not kept as an empty token",
-              "trim_end() strips Unicode whitespace (CR, FF, VT, NBSP ...) from the last unknown "
-              "token and pushes the result even when nothing is left: `10 PRINT 5<CR>` keeps an "
-              "empty token and is a SYNTAX ERROR, while its listing `10 PRINT 5` is accepted")
+              "trim_end() does not remove, in a loop, every trailing token that is blank or trims to "
+              "nothing (CR, FF, VT, NBSP are scanned as unknown tokens): `10 PRINT 5<CR>` or "
+              "`10 PRINT 5 <CR> <CR>` keeps such a token and is a SYNTAX ERROR, while its listing "
+              "is accepted")
 
 
 def rule_h(ctx, cr):
